@@ -15,7 +15,7 @@ RULE = ("a transmitting driver and a peer radio; a case = (mode: auto-ack | ask_
         "of send(single|list)/resend with force_retry and send_only). Ground truth = the "
         "simulator's air log and PTX transaction record. Non-trivial: at least one attempt went "
         "on air; distinct = distinct (mode, arc, ard, call-sequence shape, loss pattern).")
-RULE += (" Later rounds added: receiving phases between two transmissions (ACK payloads loaded and not consumed; left by role change, power-down or the end of a with block), plain listen round trips, and: resend() with an empty TX FIFO must leave the RX FIFO alone. A third of the cases run with some events masked from the IRQ pin (interrupt_config).")
+RULE += (" Later rounds added: receiving phases between two transmissions (ACK payloads loaded and not consumed; left by role change, power-down or the end of a with block), plain listen round trips, and: resend() with an empty TX FIFO must leave the RX FIFO alone. A third of the cases run with some events masked from the IRQ pin (interrupt_config). The with block left and entered again between two calls (same object / another object on the chip in between), or left and the radio powered up by hand.")
 REQUIRED = {"return_truth": 800, "attempt_count": 100, "no_leak": 800, "termination": 800,
             "ack_payload": 50, "resend_payload": 50, "resend_empty": 20}
 ASSUMPTIONS = ["termination is judged as bounded progress on the virtual clock: the call must "
@@ -53,6 +53,12 @@ def _case(rng, **over):
             c["calls"].append({"op": "resend", "send_only": rng.random() < 0.4})
         if rng.random() < 0.25:
             c["calls"][-1]["before"] = rng.choice(["listen_round_trip", "listen_round_trip", "rx_phase", "rx_phase_power", "rx_phase_with", "fill_write_only", "fill_write_only"])
+    rb = random.Random(c["seed"] ^ 0xB402)
+    for call in c["calls"]:
+        if "before" not in call and rb.random() < 0.15:
+            # the `with` block is left and entered again between two calls (the same object, or
+            # another object on the radio in between), or left and the radio powered up by hand
+            call["before"] = rb.choice(["with_reentry", "with_other", "exit_power_on"])
     c.update(over)
     return c
 
@@ -212,6 +218,7 @@ def _run(ctx, case, link, prefix):
     prng = random.Random(case["seed"] ^ 0xC02)
     ident = 0
     failed_payload = None  # payload expected at the head of the TX FIFO for resend()
+    other = [None]
     onair_any = False
     mode = case["mode"]
     noack_mode = mode in ("noack_flag", "aa0_off")
@@ -237,6 +244,19 @@ def _run(ctx, case, link, prefix):
             node.idle(300000)
             tx.listen = False
             ctx.count("listen_round_trips_before_call")
+        elif before in ("with_reentry", "with_other", "exit_power_on") and case.get("kind", "full") == "full":
+            tx.__exit__(None, None, None)
+            if before == "with_other":
+                if other[0] is None:
+                    other[0] = rig.driver(rt)  # a second driver object on the chip, constructed later
+                    other[0].__exit__(None, None, None)
+                with other[0]:
+                    pass
+            if before == "exit_power_on":
+                tx.power = True
+            else:
+                tx.__enter__()
+            ctx.count("with_block_boundaries_before_call")
         elif before and before.startswith("rx_phase") and mode == "ackpl" and case.get("kind", "full") == "full":
             # a receiving phase in which ACK payloads were loaded but not consumed, left by a plain
             # role change, through power-down, or through the end of a `with` block
